@@ -997,11 +997,45 @@ def _front_matter(text: str) -> tuple[str, dict[str, str] | None]:
     return text, None
 
 
-def caching_loader(kind: str, sources: dict[str, str], matter: dict[str, dict | None], root: str):
-    """A caching loader whose TemplateSource carries matter: dict-backed (matter handed
-    over as a mapping) or file-system backed (front matter parsed from the file)."""
-    from liquid2 import CachingDictLoader, CachingFileSystemLoader
+def caching_loader(kind: str, sources: dict[str, str], matter: dict[str, dict | None], root: str, flip: bool = False):
+    """A loader whose TemplateSource carries matter: caching dict-backed (matter handed
+    over as a mapping), caching file-system backed (front matter parsed from the file),
+    or a ChoiceLoader / CachingChoiceLoader over NON-caching delegates of both sorts
+    (the templates are split between the two delegates; `flip` swaps the halves)."""
+    from liquid2 import (CachingChoiceLoader, CachingDictLoader, CachingFileSystemLoader, ChoiceLoader, DictLoader,
+                         FileSystemLoader)
     from liquid2.loader import TemplateSource
+
+    def write_files(names: list[str]) -> None:
+        for name in names:
+            m = matter.get(name)
+            head = ("---\n" + "".join(f"{k}: {v}\n" for k, v in m.items()) + "---\n") if m else ""
+            with open(os.path.join(root, name), "w", encoding="utf-8") as fd:
+                fd.write(head + sources[name])
+
+    def split_fm(ts):  # type: ignore[no-untyped-def]
+        body, m = _front_matter(ts.source)
+        return TemplateSource(body, ts.name, ts.uptodate, m)
+
+    if kind in ("choice", "cchoice"):
+        class MatterDictLoader(DictLoader):
+            def get_source(self, env, template_name, *, context=None, **kwargs):  # type: ignore[no-untyped-def]
+                ts = super().get_source(env, template_name, context=context, **kwargs)
+                return TemplateSource(ts.source, ts.name, ts.uptodate, matter.get(template_name))
+
+        class FrontMatterFileLoader(FileSystemLoader):
+            def get_source(self, env, template_name, *, context=None, **kwargs):  # type: ignore[no-untyped-def]
+                return split_fm(super().get_source(env, template_name, context=context, **kwargs))
+
+            async def get_source_async(self, env, template_name, *, context=None, **kwargs):  # type: ignore[no-untyped-def]
+                return split_fm(await super().get_source_async(env, template_name, context=context, **kwargs))
+
+        names = sorted(sources)
+        in_dict = [n for i, n in enumerate(names) if (i % 2 == 0) != flip]
+        in_files = [n for n in names if n not in in_dict]
+        write_files(in_files)
+        delegates = [DictLoader({}), MatterDictLoader({n: sources[n] for n in in_dict}), FrontMatterFileLoader(root)]
+        return ChoiceLoader(delegates) if kind == "choice" else CachingChoiceLoader(delegates)
 
     if kind == "dict":
         class MatterCachingDictLoader(CachingDictLoader):
@@ -1027,19 +1061,20 @@ def caching_loader(kind: str, sources: dict[str, str], matter: dict[str, dict | 
         async def get_source_async(self, env, template_name, *, context=None, **kwargs):  # type: ignore[no-untyped-def]
             return self._split(await super().get_source_async(env, template_name, context=context, **kwargs))
 
-    for name, src in sources.items():
-        m = matter.get(name)
-        head = ("---\n" + "".join(f"{k}: {v}\n" for k, v in m.items()) + "---\n") if m else ""
-        with open(os.path.join(root, name), "w", encoding="utf-8") as fd:
-            fd.write(head + src)
+    write_files(list(sources))
     return FrontMatterLoader(root)
+
+
+LOADER_NAME = {"dict": "caching dict loader with matter", "fs": "caching file-system loader with front matter",
+               "choice": "ChoiceLoader over matter-supplying dict and file-system loaders",
+               "cchoice": "CachingChoiceLoader over matter-supplying dict and file-system loaders"}
 
 
 def part_e(chk: C.Check, thorough: bool) -> list[dict[str, Any]]:
     from liquid2 import Environment
 
     items: list[dict[str, Any]] = []
-    st = chk.coverage.setdefault("partE", {"environments": 0, "fetches": 0, "cache_hits": 0, "renders": 0, "lookups": 0,
+    st = chk.coverage.setdefault("partE", {"by_loader": {}, "environments": 0, "fetches": 0, "cache_hits": 0, "renders": 0, "lookups": 0,
                                            "matter_layer_answered_after_a_cache_hit": 0, "from_string_renders": 0,
                                            "_nontrivial": set()})
     scratch = tempfile.mkdtemp(prefix="c10_", dir=os.environ.get("VERIF_SCRATCH", "/var/tmp"))
@@ -1056,9 +1091,13 @@ def part_e(chk: C.Check, thorough: bool) -> list[dict[str, Any]]:
         for bits in range(256):
             S = "".join(l for i, l in enumerate(LAYERS) if bits >> i & 1)
             name = ("today" if (len(S) % 2) else "now") if "U" in S else "x"
-            combos = [("dict", False), ("dict", True), ("fs", False), ("fs", True)]
+            combos = [("dict", False), ("dict", True), ("fs", False), ("fs", True),
+                      ("choice", False), ("choice", True), ("cchoice", False), ("cchoice", True)]
             if not thorough:
-                combos = [combos[bits % 2], combos[3 - bits % 2]]
+                # two of the four caching dict / file-system combinations and two of the four
+                # choice-loader combinations per subset, one of them async, in rotation
+                combos = [combos[bits % 2], combos[3 - bits % 2]] + \
+                         ([("choice", True), ("cchoice", False)] if bits % 2 == 0 else [("cchoice", True), ("choice", False)])
             for kind, is_async in combos:
                 n_env += 1
                 P = Prog(probe=True)
@@ -1082,14 +1121,16 @@ def part_e(chk: C.Check, thorough: bool) -> list[dict[str, Any]]:
                 root = os.path.join(scratch, f"e{n_env}")
                 os.mkdir(root)
                 eg = {name: "v6"} if "E" in S else None
-                env = Environment(loader=caching_loader(kind, sources, matter, root), globals=eg)
+                env = Environment(loader=caching_loader(kind, sources, matter, root, flip=bool(bits & 2)), globals=eg)
                 env.filters["probe"] = probe_filter
                 st["environments"] += 1
+                lk = f"{kind}{' async' if is_async else ' sync'}"
+                st["by_loader"][lk] = st["by_loader"].get(lk, 0) + 1
                 W1 = api_world(S, name)
 
                 def fetch(tname: str, tg: dict | None):  # type: ignore[no-untyped-def]
                     st["fetches"] += 1
-                    if tname in env.loader.cache:
+                    if tname in getattr(env.loader, "cache", ()):
                         st["cache_hits"] += 1
                     if is_async:
                         return loop.run_until_complete(env.get_template_async(tname, globals=tg))
@@ -1117,10 +1158,10 @@ def part_e(chk: C.Check, thorough: bool) -> list[dict[str, Any]]:
                     ra = {name: f"v{rav}"} if rav else {}
                     Si = "".join(l for l in S if l not in "TR") + ("T" if tgv else "") + ("R" if rav else "")
                     vals = {"T": ("D", tgv or 0), "R": ("D", rav or 0)}
-                    replay = {"layers": S, "loader": "caching " + kind, "async": is_async, "fetch": fi + 1, "template": "main",
+                    replay = {"layers": S, "loader": LOADER_NAME[kind], "async": is_async, "fetch": fi + 1, "template": "main",
                               "per_call_globals": tg, "render_args": ra, "source": src,
                               "partials": {k: v for k, v in sources.items() if k != "main"}}
-                    segs = render(fetch("main", tg), ra, twice=thorough or fi != 1).split(SEP)
+                    segs = render(fetch("main", tg), ra, twice=thorough or (fi != 1 and "choice" not in kind)).split(SEP)
                     replay["output"] = segs
                     if len(segs) != len(kinds) + 2 or segs[-1] != "":
                         chk.finding("cached:output-shape", "unexpected output shape", replay)
@@ -1132,8 +1173,8 @@ def part_e(chk: C.Check, thorough: bool) -> list[dict[str, Any]]:
                         elif kind_[0] == "C":
                             trace.append(("C", int(seg) if re.fullmatch(r"-?\d+", seg) else 12345))
                     looks = [x[2] for x in trace if x[0] == "L"]
-                    tag = f"layers {S}, caching {kind} loader{' async' if is_async else ''}, fetch {fi + 1} of main"
-                    sig = "cached template, fetch 1" if fi == 0 else "cached template, later fetch"
+                    tag = f"layers {S}, {LOADER_NAME[kind]}{' async' if is_async else ''}, fetch {fi + 1} of main"
+                    sig = ("matter loader, fetch 1" if fi == 0 else "matter loader, later fetch") + (" (choice loader)" if "choice" in kind else "")
                     check(looks[0], spec_value(Si, LAYERS, vals), sig, tag + " (in the block)", replay)
                     check(looks[1], spec_value(Si, "LRMTEUC", vals), sig, tag + " (after the block)", replay)
                     check(looks[2], spec_value(Si, "LRMTEUC", vals), sig, tag + " (in the included partial)", replay)
@@ -1146,31 +1187,36 @@ def part_e(chk: C.Check, thorough: bool) -> list[dict[str, Any]]:
                     cra = cdict([(name, ("D", rav))] if rav else [])
                     if fi == 0:
                         case = f"chk {cworld(W1)} {cops(ops)} {ctrace(trace)}"
+                    elif kind == "choice":
+                        # not a caching loader: every fetch constructs the template anew
+                        case = f"chk {cworld(api_world(Si, name, vals))} {cops(ops)} {ctrace(trace)}"
                     else:
                         case = f"chk_refetch {cworld(W1)} {ctg} {cra} {cops(ops)} {ctrace(trace)}"
-                    items.append({"case": case, "model": f"observe (exec 30 (Extend d0 {cops(ops)}) (refetch_state {cworld(W1)} {ctg} {cra}))",
-                                  "replay": replay})
+                    if thorough or "choice" not in kind or fi != 1:  # quick: the choice loaders' middle fetch is oracle-only
+                        items.append({"case": case, "model": f"observe (exec 30 (Extend d0 {cops(ops)}) (refetch_state {cworld(W1)} {ctg} {cra}))",
+                                      "replay": replay})
                 # a child of a cached base (extends), fetched twice
                 for fi, (tgv, rav) in enumerate(plan[:2] if not thorough else plan[:3]):
                     tg = {name: f"v{tgv}"} if tgv else None
                     ra = {name: f"v{rav}"} if rav else {}
                     Si = "".join(l for l in S if l in "MEU") + ("T" if tgv else "") + ("R" if rav else "")
                     vals = {"T": ("D", tgv or 0), "R": ("D", rav or 0)}
-                    segs = render(fetch("child", tg), ra, twice=thorough or fi == 1).split(SEP)
-                    replay = {"layers": S, "loader": "caching " + kind, "async": is_async, "fetch": fi + 1, "template": "child (extends base)",
+                    segs = render(fetch("child", tg), ra, twice=thorough or (fi == 1 and "choice" not in kind)).split(SEP)
+                    replay = {"layers": S, "loader": LOADER_NAME[kind], "async": is_async, "fetch": fi + 1, "template": "child (extends base)",
                               "per_call_globals": tg, "render_args": ra, "sources": {k: sources[k] for k in ("child", "base")}, "output": segs}
                     if len(segs) != 3:
                         chk.finding("cached:output-shape", "unexpected output shape", replay)
                         continue
                     for seg, where in zip(segs, ("in the block of the child", "in the base template")):
-                        check(token_of_probe(seg), spec_value(Si, "RMTEU", vals), "cached template, extends",
-                              f"layers {S}, caching {kind} loader{' async' if is_async else ''}, fetch {fi + 1} of child ({where})", replay)
+                        check(token_of_probe(seg), spec_value(Si, "RMTEU", vals), "matter loader, extends" + (" (choice loader)" if "choice" in kind else ""),
+                              f"layers {S}, {LOADER_NAME[kind]}{' async' if is_async else ''}, fetch {fi + 1} of child ({where})", replay)
                 # the partial, cached through {% render %} with a context, now fetched directly: its OWN matter
                 tg = {name: "v7"}
                 segs = render(fetch("rp", tg), {}, twice=thorough).split(SEP)
                 Si = "MT" + "".join(l for l in S if l in "EU")
-                check(token_of_probe(segs[0]), spec_value(Si, "MTEU", {"M": ("D", 8), "T": ("D", 7)}), "cached partial fetched directly",
-                      f"layers {S}, caching {kind} loader: the partial rp fetched with get_template after it was cached by a render tag",
+                check(token_of_probe(segs[0]), spec_value(Si, "MTEU", {"M": ("D", 8), "T": ("D", 7)}),
+                      "partial fetched directly" + (" (choice loader)" if "choice" in kind else ""),
+                      f"layers {S}, {LOADER_NAME[kind]}{' async' if is_async else ''}: the partial rp fetched with get_template after a render tag had loaded it",
                       {"layers": S, "loader": kind, "async": is_async, "output": segs, "source": sources["rp"], "matter": {name: "v8"}, "globals": tg})
                 # Environment.from_string(..., globals, overlay_data) rendered repeatedly
                 if (kind, is_async) == combos[0]:
